@@ -19,14 +19,31 @@ mkdir -p "$W/out" && cp "$VERIF_DIR/known_findings.json" "$W/out/"
 echo "building baseline harness copy..."
 build || { echo "baseline build failed"; tail -20 "$W/build.log"; exit 2; }
 list=()
-if [ $# -gt 0 ]; then
+if [ $# -gt 0 ] && [ "${1:-}" != "benign" ]; then
   for n in "$@"; do
     if [ -f "$VERIF_DIR/mutants/$n.patch" ]; then list+=("$VERIF_DIR/mutants/$n.patch"); elif [ -f "$VERIF_DIR/seeded/$n/patch.diff" ]; then list+=("$VERIF_DIR/seeded/$n/patch.diff"); else echo "unknown mutant $n"; fi
   done
-else
+elif [ $# -eq 0 ]; then
   for f in "$VERIF_DIR"/mutants/*.patch "$VERIF_DIR"/seeded/*/patch.diff; do [ -f "$f" ] && list+=("$f"); done
 fi
 fail=0
+# negative controls: behaviour-preserving refactors must NOT be flagged
+if [ "${1:-}" = "benign" ] || [ $# -eq 0 ]; then
+  for patch in "$VERIF_DIR"/benign/*.diff; do
+    [ -f "$patch" ] || continue
+    name="benign/$(basename "$patch" .diff)"
+    checks=$(sed -n 's/^checks: //p' "${patch%.diff}.meta")
+    ( cd "$W/repo" && git checkout -q -- . && git apply "$patch" ) || { echo "BENIGN $name: patch does not apply"; fail=1; continue; }
+    if ! build; then echo "BENIGN $name: does not compile"; fail=1; continue; fi
+    flagged=""
+    for id in $checks; do
+      out=$(VERIF_DIR="$W/out" "$W/target/release/simrun" check "$id" quick --no-evidence ${BENIGN_RUNS:+--runs $BENIGN_RUNS} 2>&1); code=$?
+      if [ $code -ne 0 ]; then flagged="$flagged $id(exit $code $(echo "$out" | grep -o 'class=[^ ]*' | head -1))"; fi
+    done
+    if [ -n "$flagged" ]; then echo "BENIGN $name: FALSE ALARM by$flagged"; fail=1; else echo "BENIGN $name: quiet on [$checks]"; fi
+  done
+  if [ "${1:-}" = "benign" ]; then exit $fail; fi
+fi
 for patch in "${list[@]}"; do
   if [[ "$patch" == */patch.diff ]]; then
     name="seeded/$(basename "$(dirname "$patch")")"
